@@ -168,3 +168,128 @@ func (b *Baton) Point() {
 	b.progress++
 	b.mu.Unlock()
 }
+
+// Progress is a counter that moves whenever an activity is granted a point, enters or ends.
+func (b *Baton) Progress() int64 {
+	b.mu.Lock()
+	defer b.mu.Unlock()
+	return b.progress
+}
+
+// Pending returns the goroutine ids of the activities that have entered and not ended.
+func (b *Baton) Pending() []int64 {
+	b.mu.Lock()
+	defer b.mu.Unlock()
+	var out []int64
+	for g, id := range b.role {
+		if !b.done[id] {
+			out = append(out, g)
+		}
+	}
+	return out
+}
+
+// GoroutineStates returns, for the given goroutine ids, the wait state printed in the header of
+// the runtime's goroutine dump ("sync.Mutex.Lock", "sync.Cond.Wait", "running", ...) and the stack.
+func GoroutineStates(ids []int64) (states map[int64]string, stacks map[int64]string) {
+	buf := make([]byte, 1<<20)
+	for {
+		n := runtime.Stack(buf, true)
+		if n < len(buf) {
+			buf = buf[:n]
+			break
+		}
+		buf = make([]byte, 2*len(buf))
+	}
+	want := map[int64]bool{}
+	for _, g := range ids {
+		want[g] = true
+	}
+	states, stacks = map[int64]string{}, map[int64]string{}
+	for _, blk := range bytes.Split(buf, []byte("\n\n")) {
+		if !bytes.HasPrefix(blk, []byte("goroutine ")) {
+			continue
+		}
+		rest := blk[len("goroutine "):]
+		sp := bytes.IndexByte(rest, ' ')
+		if sp < 0 {
+			continue
+		}
+		g, err := strconv.ParseInt(string(rest[:sp]), 10, 64)
+		if err != nil || !want[g] {
+			continue
+		}
+		st := ""
+		if o := bytes.IndexByte(rest, '['); o >= 0 {
+			if c := bytes.IndexAny(rest[o:], ",]"); c > 0 {
+				st = string(rest[o+1 : o+c])
+			}
+		}
+		states[g] = st
+		stacks[g] = string(blk)
+	}
+	return
+}
+
+// LockWait tells whether a goroutine wait state is "parked on a mutex".
+func LockWait(state string) bool {
+	switch state {
+	case "sync.Mutex.Lock", "sync.RWMutex.Lock", "sync.RWMutex.RLock", "semacquire":
+		return true
+	}
+	return false
+}
+
+// AwaitOrDeadlock waits for done. It returns deadlocked=true (with the stacks) when every activity
+// that has not ended is parked on a mutex of the system under test, nothing has moved, and this is
+// observed on `confirm` consecutive samples; it returns hung=true when `limit` passes otherwise.
+func (b *Baton) AwaitOrDeadlock(done <-chan struct{}, limit time.Duration) (deadlocked bool, stacks string, hung bool) {
+	const step = 250 * time.Millisecond
+	const confirm = 12 // 3 s of identical observations
+	start := time.Now()
+	last := int64(-1)
+	same := 0
+	for {
+		select {
+		case <-done:
+			return false, "", false
+		case <-time.After(step):
+		}
+		p := b.Progress()
+		pend := b.Pending()
+		all := len(pend) > 0
+		st, sk := GoroutineStates(pend)
+		for _, g := range pend {
+			if !LockWait(st[g]) {
+				all = false
+			}
+		}
+		if all && p == last {
+			same++
+		} else {
+			same = 0
+		}
+		last = p
+		if same >= confirm {
+			var out []string
+			for _, g := range pend {
+				out = append(out, sk[g])
+			}
+			return true, joinStacks(out), false
+		}
+		if time.Since(start) > limit {
+			return false, "", true
+		}
+	}
+}
+
+func joinStacks(s []string) string {
+	out := ""
+	for i, x := range s {
+		if i > 0 {
+			out += "\n\n"
+		}
+		out += x
+	}
+	return out
+}
